@@ -69,9 +69,37 @@ fn u64_strategy() -> BoxedStrategy<u64> {
 #[derive(Debug, Clone, Serialize, Deserialize)]
 pub struct CountCase {
     n: u64,
+    /// first another count is written into a sink that accepts this many characters and then fails
+    /// (a bounded buffer, a closed pipe): what it got is a prefix of that count's text, and the failure
+    /// leaves nothing behind for the count formatted next
+    #[serde(default)]
+    prior: Option<(u64, u8)>,
+}
+
+struct Bounded(usize, String);
+impl std::fmt::Write for Bounded {
+    fn write_str(&mut self, s: &str) -> std::fmt::Result {
+        for ch in s.chars() {
+            if self.1.chars().count() >= self.0 {
+                return Err(std::fmt::Error);
+            }
+            self.1.push(ch);
+        }
+        Ok(())
+    }
 }
 
 fn run_count(c: &CountCase) -> CaseResult {
+    let mut failed_before = false;
+    if let Some((m, cap)) = c.prior {
+        use std::fmt::Write;
+        let mut sink = Bounded(cap as usize, String::new());
+        let r = catch(|| write!(sink, "{}", HumanCount(m))).map_err(|p| Fail::new("panic", format!("HumanCount({m}) into a failing sink panicked: {p}")))?;
+        let full = commas(&m.to_string());
+        ensure!(full.starts_with(&sink.1), "count", "HumanCount({m}) wrote {:?} into a sink of {cap} characters, which is not a prefix of {full:?}", sink.1);
+        ensure!(r.is_ok() == (full.chars().count() <= cap as usize), "count", "HumanCount({m}) into a sink of {cap} characters returned {r:?}");
+        failed_before = r.is_err();
+    }
     let got = catch(|| format!("{}", HumanCount(c.n))).map_err(|p| Fail::new("panic", format!("HumanCount({}) panicked: {p}", c.n)))?;
     let want = commas(&c.n.to_string());
     ensure!(got == want, "count", "HumanCount({}) = {:?}, expected {:?}", c.n, got, want);
@@ -79,6 +107,7 @@ fn run_count(c: &CountCase) -> CaseResult {
     v.nontrivial = c.n >= 1000;
     v.label_if(c.n >= 1000, "has_comma");
     v.label_if(c.n < 1000, "no_comma");
+    v.label_if(failed_before, "formatted_after_a_failed_write");
     Ok(v)
 }
 
@@ -473,12 +502,12 @@ pub fn property() -> Property {
         parts: vec![
             Box::new(Gen::<CountCase> {
                 name: "count",
-                rule: "u64 from any/10^k+-2/2^k+-2/small; non-trivial = value >= 1000 (a comma is needed)",
-                strategy: |_| u64_strategy().prop_map(|n| CountCase { n }).boxed(),
+                rule: "u64 from any/10^k+-2/2^k+-2/small; in a third of the cases another count is first written into a sink that fails after 0-26 characters (it must have received a prefix of the right text, and the count formatted next on the same thread is unaffected); non-trivial = value >= 1000 (a comma is needed)",
+                strategy: |_| (u64_strategy(), proptest::option::weighted(0.33, (u64_strategy(), 0u8..27))).prop_map(|(n, prior)| CountCase { n, prior }).boxed(),
                 cases: |t| t.pick(40_000, 1_000_000),
                 run: run_count,
                 signature: no_signature,
-                essential: &["has_comma", "no_comma"],
+                essential: &["has_comma", "no_comma", "formatted_after_a_failed_write"],
                 workers: w,
                 decode: None,
             }),
